@@ -55,11 +55,17 @@ func (w *symWalker) apath(v ssa.Value) string {
 		if st == nil {
 			return w.apath(x.X) + ".?"
 		}
+		if flattenFields && st.Field(x.Field).Embedded() && canonInner(st.Field(x.Field).Type()) {
+			return w.apath(x.X)
+		}
 		return w.apath(x.X) + "." + st.Field(x.Field).Name()
 	case *ssa.Field:
 		st := structOf(x.X.Type())
 		if st == nil {
 			return w.apath(x.X) + ".?"
+		}
+		if flattenFields && st.Field(x.Field).Embedded() && canonInner(st.Field(x.Field).Type()) {
+			return w.apath(x.X)
 		}
 		return w.apath(x.X) + "." + st.Field(x.Field).Name()
 	case *ssa.UnOp:
@@ -246,6 +252,8 @@ type rdRoles struct {
 // resolveDetFields finds the fields of a detector struct by role.
 func resolveDetFields(p *Prog, tn string, d *rdRoles) []string {
 	var probs []string
+	flattenPrefer = "replaydetector." + tn
+	defer func() { flattenPrefer = "" }()
 	named := p.Named("replaydetector", tn)
 	if named == nil {
 		return []string{"type " + tn + " not found"}
@@ -267,26 +275,25 @@ func resolveDetFields(p *Prog, tn string, d *rdRoles) []string {
 		})
 	}
 	var u64 []string
-	for i := 0; i < st.NumFields(); i++ {
-		f := st.Field(i)
-		switch t := f.Type().Underlying().(type) {
+	for _, f := range flatStructFields(st, "", 0) {
+		switch t := f.Type.Underlying().(type) {
 		case *types.Basic:
 			switch {
 			case t.Kind() == types.Bool:
-				d.init = f.Name()
+				d.init = f.Name
 			case t.Kind() == types.Uint64:
-				u64 = append(u64, f.Name())
+				u64 = append(u64, f.Name)
 			case t.Kind() == types.Uint:
-				d.window = f.Name()
+				d.window = f.Name
 			}
 		case *types.Pointer:
-			if typeName(f.Type()) == "replaydetector.fixedBigInt" {
-				d.mask = f.Name()
+			if typeName(f.Type) == "replaydetector.fixedBigInt" {
+				d.mask = f.Name
 			}
 		}
 	}
 	if ctor != nil {
-		instrsOf(ctor, func(in ssa.Instruction) {
+		instrsOfU(ctor, func(in ssa.Instruction) {
 			if s, ok := in.(*ssa.Store); ok {
 				if fr, ok := asFieldAddr(s.Addr); ok && fr.SName == "replaydetector."+tn {
 					if prm, ok := s.Val.(*ssa.Parameter); ok {
@@ -334,6 +341,8 @@ func unsignedCmp(c fact) (bool, bool) {
 
 func replayRules(c *Ctx, which string) {
 	p := c.P
+	flattenFields = true
+	defer func() { flattenFields, flattenPrefer = false, "" }()
 	bitF := p.Func("replaydetector", "fixedBigInt", "Bit")
 	setF := p.Func("replaydetector", "fixedBigInt", "SetBit")
 	lshF := p.Func("replaydetector", "fixedBigInt", "Lsh")
@@ -374,6 +383,7 @@ func replayRules(c *Ctx, which string) {
 	}
 
 	for _, d := range dets {
+		flattenPrefer = d.T
 		D := "d" // receiver name
 		if len(d.check.Params) > 0 {
 			D = d.check.Params[0].Name()
